@@ -279,3 +279,19 @@ Definition ibs_is_booking (r : list str) : bool :=
 Definition ibs_is_balance (r : list str) : bool :=
   match ibs_kind r with IbPosition | IbCash => true | _ => false end.
 Definition is_txn_dir (d : directive) : bool := match d with DTxn _ => true | _ => false end.
+
+(* ---------------------------------------------------------------- executable form (the check runs it) *)
+(* the directive that realises an item: the transaction built from its bookings (posting.Builder
+   semantics: legs_postings), dated, described and annotated as the item says, resp. the assertion *)
+Definition ibs_directive (acct : account) (i : ibs_item) : directive :=
+  match i with
+  | IbTxn e => legs_txn (re_date (en_fact (fst e))) (en_text (fst e)) (en_legs (fst e)) (snd e)
+  | IbBal b => assertion_of acct b
+  end.
+
+(* what `knut import us.interactivebrokers` must print for a well-formed statement; None for a
+   statement that is not well-formed *)
+Definition ibs_statement_output (acct dividend interest tax fee trading : account) (rows : list (list str)) : option str :=
+  if ibs_wf ibs_ctx0 rows
+  then Some (print_directives (map (ibs_directive acct) (ibs_items acct dividend interest tax fee trading ibs_ctx0 rows)))
+  else None.
